@@ -169,7 +169,7 @@ func run(c *hl.Ctx) error {
 		return nil
 	}
 	r := c.Rand()
-	n := c.Pick(200, 25000)
+	n := c.Pick(200, 5000)
 	if c.Search && c.Tier != "thorough" {
 		n = 1500
 	}
